@@ -324,7 +324,100 @@ func equal(lhsV, rhsV reflect.Value) bool {
 		return lhsB == rhsB
 	}
 
+	if holdsModule(lhsV, map[uintptr]bool{}) || holdsModule(rhsV, map[uintptr]bool{}) {
+		// containers that hold modules are compared element by element, a module by identity
+		return equalAroundModules(lhsV, rhsV, map[[2]uintptr]bool{})
+	}
 	return reflect.DeepEqual(lhsV.Interface(), rhsV.Interface())
+}
+
+// holdsModule reports whether a module is reachable from v through interface boxes, slices,
+// arrays and maps (modules themselves are not looked into)
+func holdsModule(v reflect.Value, seen map[uintptr]bool) bool {
+	switch v.Kind() {
+	case reflect.Interface:
+		return !v.IsNil() && holdsModule(v.Elem(), seen)
+	case reflect.Ptr:
+		return moduleOf(v) != nil
+	case reflect.Slice, reflect.Map:
+		if v.IsNil() || seen[v.Pointer()] {
+			return false
+		}
+		seen[v.Pointer()] = true
+	case reflect.Array:
+	default:
+		return false
+	}
+	if v.Kind() == reflect.Map {
+		for _, key := range v.MapKeys() {
+			if holdsModule(key, seen) || holdsModule(v.MapIndex(key), seen) {
+				return true
+			}
+		}
+		return false
+	}
+	for i := 0; i < v.Len(); i++ {
+		if holdsModule(v.Index(i), seen) {
+			return true
+		}
+	}
+	return false
+}
+
+// equalAroundModules is reflect.DeepEqual for values that hold modules: it walks interface
+// boxes, slices, arrays and maps like DeepEqual does, compares a module by identity instead of
+// walking its tables (which its own lock guards), and leaves everything else to DeepEqual
+func equalAroundModules(l, r reflect.Value, seen map[[2]uintptr]bool) bool {
+	if !l.IsValid() || !r.IsValid() {
+		return l.IsValid() == r.IsValid()
+	}
+	if l.Type() != r.Type() {
+		return false
+	}
+	switch l.Kind() {
+	case reflect.Interface:
+		if l.IsNil() || r.IsNil() {
+			return l.IsNil() == r.IsNil()
+		}
+		return equalAroundModules(l.Elem(), r.Elem(), seen)
+	case reflect.Ptr:
+		if lm, rm := moduleOf(l), moduleOf(r); lm != nil || rm != nil {
+			return lm == rm
+		}
+	case reflect.Slice, reflect.Map:
+		if l.IsNil() != r.IsNil() || l.Len() != r.Len() {
+			return false
+		}
+		if l.IsNil() || l.Pointer() == r.Pointer() {
+			return true
+		}
+		pair := [2]uintptr{l.Pointer(), r.Pointer()}
+		if seen[pair] {
+			return true
+		}
+		seen[pair] = true
+		if l.Kind() == reflect.Map {
+			for _, key := range l.MapKeys() {
+				rv := r.MapIndex(key)
+				if !rv.IsValid() || !equalAroundModules(l.MapIndex(key), rv, seen) {
+					return false
+				}
+			}
+			return true
+		}
+		fallthrough
+	case reflect.Array:
+		for i := 0; i < l.Len(); i++ {
+			if !equalAroundModules(l.Index(i), r.Index(i), seen) {
+				return false
+			}
+		}
+		return true
+	}
+	if !l.CanInterface() || !r.CanInterface() {
+		return false
+	}
+	return reflect.DeepEqual(l.Interface(), r.Interface())
 }
 
 // moduleOf returns the module v is, or nil
